@@ -38,10 +38,18 @@ def build(tier):
         km = pick(list(itertools.combinations(range(n), k - 1)), seed + m * 100 + k + 1, 2 if tier == "quick" else 6)
         for pi, pat in enumerate(ks + km):
             qs.append(rs_cycle("C02", RS2M, k, r, 2, m, list(pat), pi % 2, 1, pi % 3, EN, data="one", timeout=1200))
+    # one mid-size GF(2^8) code with EVERY k-subset (the MDS statement itself: no k-subset of the
+    # generator rows is singular) -- a seeded change in the Vandermonde inversion made exactly two
+    # of the 70 subsets of (4,4) singular and none of any smaller code
+    allk = [(8, 4, 4)] if tier == "quick" else [(8, 4, 4), (4, 4, 4), (8, 5, 4)]
+    for m, k, r in allk:
+        n = k + r
+        for pi, pat in enumerate(itertools.combinations(range(n), k)):
+            qs.append(rs_cycle("C02", RS2M, k, r, 2, m, list(pat), pi % 2, 1, 0, EN, data="one", timeout=1200))
     meta = dict(
         units=["src/lib_stable/reed-solomon_gf_2_m/of_reed-solomon_gf_2_m_api.c", "galois_field_codes_utils/of_galois_field_code.c", "algebra_2_4.c", "algebra_2_8.c", "tables of algebra_2_{4,8}.h and of_reed-solomon_gf_2_8.c"],
         functions_encoded=["of_rs_2_m_decode_with_new_symbol", "of_rs_2_m_set_available_symbols", "of_rs_2_m_finish_decoding", "of_rs_2m_build_encoding_matrix", "of_rs_2m_build_decoding_matrix", "of_rs_2m_decode", "of_galois_field_2_{4,8}_invert_mat/invert_vdm/matmul"],
-        bounds="RS GF(2^m) (m,k,r,data) in %s: every received set of the 2^n, both directions asserted (>= k distinct symbols => complete with the right data, also through extra symbols and duplicates; < k => never complete and of_finish_decoding == OF_STATUS_FAILURE); larger codes %s on sampled k-subsets and (k-1)-subsets; lemma: the exponential tables of both codecs take pairwise distinct non-zero values on 0..2^m-2 (all index pairs symbolic), i.e. the evaluation points 0,1,a,a^2.. are distinct" % (rs, big),
+        bounds="RS GF(2^m) (m,k,r,data) in %s: every received set of the 2^n, both directions asserted (>= k distinct symbols => complete with the right data, also through extra symbols and duplicates; < k => never complete and of_finish_decoding == OF_STATUS_FAILURE); larger codes %s on sampled k-subsets and (k-1)-subsets; %s on every k-subset; lemma: the exponential tables of both codecs take pairwise distinct non-zero values on 0..2^m-2 (all index pairs symbolic), i.e. the evaluation points 0,1,a,a^2.. are distinct" % (rs, big, allk),
         outside_bounds="codec 1 (legacy GF(2^8)) beyond (2,2); all received sets of codes with n > 6 (m=4) / n > 5 (m=8); data=one: only one source symbol is free per query; that distinct points imply MDS is mathematics, not checked",
         stubs=[RS_STUB, RS28_TABLES], assumptions=STD_ASSUMPTIONS, exhaustive=False)
     return qs, meta
